@@ -2553,8 +2553,9 @@ class Composite(ArmiObject):
 
     def sort(self):
         """Sort the children of this object."""
-        # sort the top-level children of this Composite
-        self._children.sort()
+        # sort the top-level children of this Composite. Not in place: a list is empty while
+        # list.sort() runs, and a DerivedShape is compared by the area its siblings leave it.
+        self._children = sorted(self._children)
 
         # recursively sort the children below it.
         for c in self._children:
